@@ -232,6 +232,17 @@ structure GroupSpec {β : Type} (Good : α → Prop) (abs : α → β) (add : β
   good    : ∀ p, acc.p = some p → Good p
   abs_eq  : acc.p.map abs = absSum add ((successes outs 0 k).map (fun x => abs x.2))
 
+/-- What the model needs of the chunking facts regenerated from the source (`Gen/FetchConsts.lean`),
+as far as they were recognised (`none` = not recognised, then nothing is claimed): the chunk size
+is positive; consecutive chunks start exactly one chunk length apart (no gap, no overlap) and a
+chunk is not longer than the chunk size. -/
+def chunkFactsOk (size step span : Option Nat) : Bool :=
+  (match size with | some c => decide (1 ≤ c) | none => true) &&
+  (match step, span with
+    | some a, some b => decide (a = b) && decide (1 ≤ a) &&
+        (match size with | some c => decide (b ≤ c) | none => true)
+    | _, _ => true)
+
 /-! ## The instance run by the driver: profiles are lists of source indices, merge = concatenation
 (the free monoid: order-sensitive, so "in command-line order" is visible) -/
 
